@@ -11,6 +11,19 @@
 //!   disconnect: D0 (probe, log)     -> registry remove -> D1 (probe, log)
 //! so D0 sees the registry *before* the library's removal and D1 *after* it.
 //!
+//! Hook-released handlers (`hook_release`, most OffReader cells and every takeover scenario): the off-reader
+//! handler parks on a per-connection gate that only D0 -- the FIRST registered disconnect hook -- of its own
+//! connection opens, and reads `ctx.is_cancelled()` the instant it wakes. The library documents "Drop cancels the
+//! connection token, then runs the hooks in registration order", so on a correct tree the cancel() call precedes
+//! D0's gate store in program order and the gate mutex orders it before the handler's read: the handler must read
+//! `true`, deterministically. D1 spins ~1.5 ms (no blocking) so a cancel() issued only after the hooks is late.
+//!
+//! Identity takeover family (`c15_takeover.rs`, cells Takeover{Pair,Triple}:Identity): connection pairs/triples
+//! share identity aliases attached in the handshake connect hook together with per-connection aliases in sorted
+//! and unsorted orders; older connections end by client-side exit causes while newer ones stay; registry
+//! snapshots (get, get_by, aliases_for, key_for) taken inside the newer connection's handlers, inside the
+//! disconnect hooks and by the driver are compared offline against a reference alias model replayed over the log.
+//!
 //! Replaying one cell of a witness (`replay` json of a violation carries cause/phase/entry/conns/seed):
 //!   rv c15 --tier quick only=<Cause>:<Phase>:<Entry> conns=<n> cellseed=<seed>
 //!
@@ -155,6 +168,18 @@ enum Ev {
     Probe { peer: u64, s1: u64, get: bool, by_a: bool, by_b: bool, site: &'static str },
     QueueFull { peer: u64, pushed: u64 },
     PanicNow { peer: u64, site: &'static str },
+    /// an off-reader handler left its per-connection gate; `by_hook` = the gate was opened by its own connection's D0
+    HHookRelease { peer: u64, tok: u64, by_hook: bool, cancelled: bool },
+    // --- identity takeover family
+    TkConnect0 { peer: u64 },
+    /// aliases attached in the handshake connect hook within [s1, own seq]
+    TkAlias { peer: u64, idx: usize, s1: u64, keys: Vec<String>, oks: Vec<bool> },
+    /// registry view of `peer` (client `idx`) and of every key of its group, taken within [s1, own seq]
+    TkSnap { site: &'static str, peer: u64, idx: usize, s1: u64, get: bool, list: Vec<String>, key_for: Option<String>, by: Vec<(String, Option<u64>)>, ctx_peer: Option<u64> },
+    TkDisc0 { peer: u64 },
+    TkDisc1 { peer: u64 },
+    /// the driver is about to end this connection (client cause, token cancel or drain)
+    TkEndApplied { peer: u64 },
     CancelCalled,
     ShutdownFired,
     ServeReturned,
@@ -187,6 +212,51 @@ impl Gate {
         *g
     }
 }
+impl Gate {
+    fn peek(&self) -> Option<u8> {
+        *self.st.lock().unwrap_or_else(|e| e.into_inner())
+    }
+}
+
+/// Per-connection gates opened from inside the first disconnect hook (a mutex-protected set insert plus a
+/// notify: nothing in it blocks).
+struct PeerGates {
+    st: Mutex<std::collections::HashSet<u64>>,
+    cv: Condvar,
+}
+impl PeerGates {
+    fn new() -> PeerGates {
+        PeerGates { st: Mutex::new(Default::default()), cv: Condvar::new() }
+    }
+    fn open(&self, peer: u64) {
+        self.st.lock().unwrap_or_else(|e| e.into_inner()).insert(peer);
+        self.cv.notify_all();
+    }
+    /// true once `peer`'s gate was opened by its disconnect hook; false when `d` passed first.
+    fn wait(&self, peer: u64, d: Duration) -> bool {
+        let deadline = Instant::now() + d;
+        let mut g = self.st.lock().unwrap_or_else(|e| e.into_inner());
+        loop {
+            if g.contains(&peer) {
+                return true;
+            }
+            let now = Instant::now();
+            if now >= deadline {
+                return false;
+            }
+            g = self.cv.wait_timeout(g, deadline - now).unwrap_or_else(|e| e.into_inner()).0;
+        }
+    }
+}
+
+fn spin_for(d: Duration) {
+    let t = Instant::now();
+    while t.elapsed() < d {
+        std::hint::spin_loop();
+    }
+}
+const HOOK_SPIN: Duration = Duration::from_micros(1500);
+
 const ACT_GO: u8 = 1;
 const ACT_PANIC: u8 = 2;
 const PARK_CAP: Duration = Duration::from_secs(50);
@@ -205,6 +275,11 @@ struct Scn {
     /// parked handlers return on their own once they see cancellation
     coop: bool,
     tok: AtomicU64,
+    /// off-reader parked handlers first wait for their own connection's D0 to open their gate (see module doc)
+    hook_release: bool,
+    pg: PeerGates,
+    /// identity-takeover plan (scripts per client), None in the ordinary table cells
+    tk: Option<takeover::TkPlan>,
 }
 
 impl Scn {
@@ -268,6 +343,22 @@ fn park(sc: &Scn, ctx: &CallContext<'_>, off: bool) -> Result<Value, (ErrorCode,
     sc.probe_ev(peer, if off { "bpark-enter" } else { "park-enter" });
     sc.push(Ev::HEnter { peer, tok, off });
     let start = Instant::now();
+    if off && sc.hook_release {
+        // Parked on the per-connection gate: only this connection's first disconnect hook opens it. No polling of
+        // is_cancelled() before that; the read below is the first thing done after the wake-up.
+        let mut by_hook = false;
+        loop {
+            if sc.pg.wait(peer, Duration::from_millis(25)) {
+                by_hook = true;
+                break;
+            }
+            if sc.hgate.peek().is_some() || start.elapsed() > PARK_CAP {
+                break;
+            }
+        }
+        let cancelled = ctx.is_cancelled();
+        sc.push(Ev::HHookRelease { peer, tok, by_hook, cancelled });
+    }
     let (mut seen, mut action, mut timeout) = (false, None, false);
     loop {
         if let Some(a) = sc.hgate.wait(Duration::from_millis(3)) {
@@ -366,6 +457,9 @@ fn build_server(sc: &Arc<Scn>, cap: usize) -> WebSocketServer {
             s0.connect_stage(p, 0);
         })
         .on_peer_disconnect(move |id: PeerId| {
+            if sd0.hook_release {
+                sd0.pg.open(id.0);
+            }
             let (get, by_a, by_b) = sd0.probe(id.0);
             sd0.push(Ev::Disc0 { peer: id.0, get, by_a, by_b });
         })
@@ -391,18 +485,24 @@ fn build_server(sc: &Arc<Scn>, cap: usize) -> WebSocketServer {
             let (get, by_a, by_b) = sd1.probe(id.0);
             let n_alias = sd1.reg.aliases_for(id).len();
             sd1.push(Ev::Disc1 { peer: id.0, get, by_a, by_b, n_alias });
+            if sd1.hook_release {
+                spin_for(HOOK_SPIN);
+            }
         })
         .on_error(move |e: &ConnectionError| {
-            let kind = match e {
-                ConnectionError::Handshake(_) => "handshake",
-                ConnectionError::Connection(_) => "connection",
-                ConnectionError::HandlerPanic { .. } => "handler-panic",
-                ConnectionError::Saturation { .. } => "saturation",
-                ConnectionError::OutboundTooLarge { .. } => "outbound-too-large",
-                _ => "other",
-            };
-            se.push(Ev::Error { kind });
+            se.push(Ev::Error { kind: error_kind(e) });
         })
+}
+
+fn error_kind(e: &ConnectionError) -> &'static str {
+    match e {
+        ConnectionError::Handshake(_) => "handshake",
+        ConnectionError::Connection(_) => "connection",
+        ConnectionError::HandlerPanic { .. } => "handler-panic",
+        ConnectionError::Saturation { .. } => "saturation",
+        ConnectionError::OutboundTooLarge { .. } => "outbound-too-large",
+        _ => "other",
+    }
 }
 
 // ------------------------------------------------------------------ serving entry points
@@ -467,10 +567,9 @@ async fn hand_upgrade(mut stream: TcpStream) -> std::io::Result<(TcpStream, http
 }
 
 /// Start the scenario's server on the *server* runtime (this future must be spawned there).
-async fn start_server(sc: Arc<Scn>, entry: Entry, cap: usize, with_ctx: bool, drain_timeout: Duration, variant: u64, need_token: bool) -> Result<Running, String> {
+async fn start_server(sc: Arc<Scn>, server: WebSocketServer, entry: Entry, with_ctx: bool, drain_timeout: Duration, variant: u64, need_token: bool) -> Result<Running, String> {
     let listener = TcpListener::bind("127.0.0.1:0").await.map_err(|e| format!("bind: {e}"))?;
     let addr = listener.local_addr().map_err(|e| format!("local_addr: {e}"))?;
-    let server = build_server(&sc, cap);
     match entry {
         Entry::ServeListener => {
             let task = tokio::spawn(async move {
@@ -811,7 +910,17 @@ async fn bad_handshake(addr: SocketAddr, kind: BadHs, seed: u64) -> bool {
 enum Kind {
     Cell(Cause, Phase),
     Bad(BadHs),
+    Takeover(TkShape),
 }
+
+#[derive(Clone, Copy, Debug, PartialEq, Eq, Hash, PartialOrd, Ord)]
+enum TkShape {
+    Pair,
+    Triple,
+}
+
+#[path = "c15_takeover.rs"]
+mod takeover;
 
 #[derive(Clone, Debug)]
 struct Spec {
@@ -920,7 +1029,10 @@ fn main_disconnected(sc: &Scn, exclude: &[u64]) -> bool {
 
 async fn run_scenario(spec: Spec, env: Arc<Env>) -> Out {
     let t0 = Instant::now();
-    let mut out = run_scenario_inner(spec, env.clone()).await;
+    let mut out = match spec.kind {
+        Kind::Takeover(_) => takeover::run(spec, env.clone()).await,
+        _ => run_scenario_inner(spec, env.clone()).await,
+    };
     out.wall_ms = t0.elapsed().as_millis() as u64;
     out
 }
@@ -929,7 +1041,7 @@ async fn run_scenario_inner(spec: Spec, env: Arc<Env>) -> Out {
     let mut r = Rng::new(spec.seed);
     let (cause, phase) = match &spec.kind {
         Kind::Cell(c, p) => (Some(*c), *p),
-        Kind::Bad(_) => (None, Phase::Idle),
+        Kind::Bad(_) | Kind::Takeover(_) => (None, Phase::Idle),
     };
     let entry = spec.entry;
     let n = spec.conns;
@@ -969,6 +1081,8 @@ async fn run_scenario_inner(spec: Spec, env: Arc<Env>) -> Out {
     let bystanders = if cause.map(is_client_cause).unwrap_or(false) && phase != Phase::ConnectCb && gate_pos.is_none() { r.usize_below(3) } else { 0 };
     let extra_bad = if entry != Entry::Adopt && cause.is_some() && r.chance(1, 3) { 1 + r.usize_below(2) } else { 0 };
     let blocks = gate_pos.is_some() || phase == Phase::Inline;
+    // drawn from its own stream so the rest of the derived configuration is unchanged
+    let hook_release = phase == Phase::OffReader && cause.is_some() && Rng::new(spec.seed ^ 0x0D15_C0DE).chance(3, 4);
 
     let sc = Arc::new(Scn {
         log: Mutex::new(Vec::new()),
@@ -979,9 +1093,12 @@ async fn run_scenario_inner(spec: Spec, env: Arc<Env>) -> Out {
         panic_pos,
         coop,
         tok: AtomicU64::new(1),
+        hook_release,
+        pg: PeerGates::new(),
+        tk: None,
     });
     let cfg = json!({
-        "with_handshake_hook": with_ctx, "variant": variant, "panic_pos": panic_pos, "gate_pos": gate_pos, "coop": coop,
+        "with_handshake_hook": with_ctx, "variant": variant, "panic_pos": panic_pos, "gate_pos": gate_pos, "coop": coop, "hook_release": hook_release,
         "outbound_capacity": cap, "wedge_reader": wedge_reader, "bystanders": bystanders, "extra_bad_handshakes": extra_bad,
     });
     let mut out = Out {
@@ -1011,7 +1128,7 @@ async fn run_scenario_inner(spec: Spec, env: Arc<Env>) -> Out {
         None
     };
 
-    let running = match env.srv.spawn(start_server(sc.clone(), entry, cap, with_ctx, drain_timeout, variant, cause == Some(Cause::TokenCancel))).await {
+    let running = match env.srv.spawn(start_server(sc.clone(), build_server(&sc, cap), entry, with_ctx, drain_timeout, variant, cause == Some(Cause::TokenCancel))).await {
         Ok(Ok(rn)) => rn,
         Ok(Err(e)) => {
             out.harness_err = Some(e);
@@ -1382,6 +1499,7 @@ fn cell_name(k: &Kind) -> (String, String) {
     match k {
         Kind::Cell(c, p) => (format!("{c:?}"), format!("{p:?}")),
         Kind::Bad(b) => (format!("Bad{b:?}"), "Handshake".into()),
+        Kind::Takeover(s) => (format!("Takeover{s:?}"), "Identity".into()),
     }
 }
 
@@ -1402,6 +1520,11 @@ struct Tally {
     tolerated: u64,
     error_responses: u64,
     client_notes: u64,
+    /// handlers released by their own connection's first disconnect hook that read is_cancelled()==true at once
+    hook_released_cancelled: u64,
+    /// handlers that left the per-connection gate because the driver tore the scenario down (no verdict)
+    hook_release_by_driver: u64,
+    tk: takeover::TkTally,
 }
 
 fn judge(out: &Out, rep: &mut Report, stalled: bool, t: &mut Tally) {
@@ -1420,6 +1543,10 @@ fn judge(out: &Out, rep: &mut Report, stalled: bool, t: &mut Tally) {
 fn judge_inner(out: &Out, stalled: bool, t: &mut Tally, found: &mut Vec<(String, String)>, rep_note: &mut Vec<String>) {
     let (cn, pn) = cell_name(&out.spec.kind);
     let cell = format!("{cn}:{pn}");
+    if matches!(out.spec.kind, Kind::Takeover(_)) {
+        takeover::judge(out, stalled, t, found, rep_note);
+        return;
+    }
     let ev = out.sc.snapshot();
     if let Some(e) = &out.harness_err {
         rep_note.push(format!("{cell} via {:?}: harness: {e}", out.spec.entry));
@@ -1610,6 +1737,7 @@ fn judge_inner(out: &Out, stalled: bool, t: &mut Tally, found: &mut Vec<(String,
             _ => {}
         }
     }
+    judge_hook_release(&ev, t, &mut viol);
     // bystanders: no disconnect before they proved alive after their neighbours' exits
     for (s, e) in &ev {
         if let Ev::BystanderAlive { peer } = e {
@@ -1648,6 +1776,31 @@ fn judge_inner(out: &Out, stalled: bool, t: &mut Tally, found: &mut Vec<(String,
     t.tolerated += out.tolerated_frame_cause as u64;
     t.error_responses += out.clients.iter().flat_map(|c| c.frames.iter()).filter(|f| !f.notify && f.ec != 0).count() as u64;
     t.client_notes += out.clients.iter().filter(|c| c.handshake_ok && c.note.is_some()).count() as u64;
+}
+
+/// A handler woken by its own connection's FIRST disconnect hook must already see the connection token cancelled:
+/// DisconnectGuard::drop cancels the token and only then runs the hooks (in registration order), and the gate
+/// mutex orders the hook's store before the handler's read.
+fn judge_hook_release(ev: &[(u64, Ev)], t: &mut Tally, viol: &mut impl FnMut(&str, String)) {
+    for (s, e) in ev {
+        if let Ev::HHookRelease { peer, tok, by_hook, cancelled } = e {
+            if !*by_hook {
+                t.hook_release_by_driver += 1;
+            } else if *cancelled {
+                t.hook_released_cancelled += 1;
+            } else {
+                let d0 = ev.iter().find_map(|(s, e)| matches!(e, Ev::Disc0 { peer: p, .. } | Ev::TkDisc0 { peer: p } if p == peer).then_some(*s));
+                viol(
+                    "handler-not-cancelled-when-disconnect-hooks-run",
+                    format!(
+                        "peer {peer} off-reader handler #{tok}: parked on a gate that only its own connection's first on_peer_disconnect hook opens; \
+                         woken by that hook it read ctx.is_cancelled()==false at once (logged at seq {s}; first disconnect hook logged at seq {d0:?}) -- \
+                         the connection token was not cancelled before the disconnect hooks ran"
+                    ),
+                );
+            }
+        }
+    }
 }
 
 // ------------------------------------------------------------------ table driver
@@ -1726,7 +1879,12 @@ pub fn run(args: &Args) -> Report {
             }
         }
     }
-    let table_cells = CAUSES.len() * PHASES.len() * ENTRIES.len() + BAD_HS.len() * ENTRIES.len();
+    for s in [TkShape::Pair, TkShape::Triple] {
+        for e in ENTRIES {
+            cells.push((Kind::Takeover(s), e));
+        }
+    }
+    let table_cells = CAUSES.len() * PHASES.len() * ENTRIES.len() + BAD_HS.len() * ENTRIES.len() + 2 * ENTRIES.len();
     rep.set("table_cells_total", json!(table_cells));
     rep.set("table_cells_meaningful", json!(cells.len()));
     rep.set("table_cells_skipped", json!(skipped.values().sum::<u64>()));
@@ -1740,7 +1898,7 @@ pub fn run(args: &Args) -> Report {
     let mut executed_cells: std::collections::BTreeSet<String> = Default::default();
     let mut conn_hist: BTreeMap<usize, u64> = BTreeMap::new();
     let mut slow: Vec<(u64, String)> = vec![];
-    let mut t = Tally { connects: 0, disconnects: 0, probes_present: 0, probes_absent: 0, probes_unconstrained: 0, order_checks: 0, connect_notifies_seen: 0, parked: 0, released_after_disconnect_cancelled: 0, cancel_seen: 0, frames: 0, bystanders_alive: 0, panics: 0, tolerated: 0, error_responses: 0, client_notes: 0 };
+    let mut t = Tally { connects: 0, disconnects: 0, probes_present: 0, probes_absent: 0, probes_unconstrained: 0, order_checks: 0, connect_notifies_seen: 0, parked: 0, released_after_disconnect_cancelled: 0, cancel_seen: 0, frames: 0, bystanders_alive: 0, panics: 0, tolerated: 0, error_responses: 0, client_notes: 0, hook_released_cancelled: 0, hook_release_by_driver: 0, tk: Default::default() };
     let (mut scenarios, mut connections, mut bad_attempts, mut passes_done, mut not_started) = (0u64, 0u64, 0u64, 0u64, 0u64);
     for pass in 0..passes {
         if rep.elapsed() > wall_cap || env.expired.load(Ordering::Relaxed) >= 8 {
@@ -1753,6 +1911,8 @@ pub fn run(args: &Args) -> Report {
                 let (phase, bad) = match k {
                     Kind::Cell(_, p) => (*p, false),
                     Kind::Bad(_) => (Phase::Idle, true),
+                    // `conns` counts identity groups (2 or 3 connections each)
+                    Kind::Takeover(_) => return Spec { kind: k.clone(), entry: *e, conns: *r.pick(&[1usize, 2, 3, 4, 6, 8]), seed: r.next_u64() },
                 };
                 Spec { kind: k.clone(), entry: *e, conns: pick_conns(&mut r, phase, bad), seed: r.next_u64() }
             })
@@ -1873,6 +2033,9 @@ pub fn run(args: &Args) -> Report {
     rep.set("handlers_parked", json!(t.parked));
     rep.set("handlers_saw_cancel_while_parked", json!(t.cancel_seen));
     rep.set("handlers_released_after_end_and_cancelled", json!(t.released_after_disconnect_cancelled));
+    rep.set("handlers_released_by_first_disconnect_hook_and_cancelled", json!(t.hook_released_cancelled));
+    rep.set("handlers_released_from_hook_gate_by_driver_teardown", json!(t.hook_release_by_driver));
+    t.tk.report(&mut rep);
     rep.set("bystander_liveness_checks", json!(t.bystanders_alive));
     rep.set("scripted_panics_fired", json!(t.panics));
     rep.set("frame_causes_tolerated_by_server_then_dropped", json!(t.tolerated));
